@@ -8,7 +8,7 @@ use crate::{
     ty::Ty,
 };
 use serde_json::{Value as Json, json};
-use simplesl::variable::Type;
+use simplesl::variable::{Type, Typed};
 use std::str::FromStr;
 
 pub struct C10Prop;
@@ -87,6 +87,9 @@ impl Property for C10Prop {
     }
 
     fn check_case(&self, case: &Json, stats: &mut Stats) -> Verdict {
+        if case["kind"].as_str() == Some("membership") {
+            return check_membership(case, stats);
+        }
         let (ta, tb, tc) = (
             case["a"].as_str().unwrap_or("int"),
             case["b"].as_str().unwrap_or("int"),
@@ -203,6 +206,143 @@ impl Property for C10Prop {
     }
 }
 
+/// every value of the operand catalogue, evaluated once: (text, value, its run-time type)
+fn catalogue_values() -> &'static Vec<(&'static str, simplesl::variable::Variable, Ty)> {
+    static V: std::sync::OnceLock<Vec<(&'static str, simplesl::variable::Variable, Ty)>> = std::sync::OnceLock::new();
+    V.get_or_init(|| {
+        let mut out: Vec<(&'static str, simplesl::variable::Variable, Ty)> = vec![];
+        // (beyond the catalogue: values whose types differ from catalogue types in a component only)
+        const MORE: [&str; 16] = [
+            "struct{a := \"s\"}", "struct{a := 2.5}", "struct{a := 1, b := 2}", "struct{b := 1}", "struct{a := [1]}", "[1, \"s\"]", "[2.5, true]", "[1, 2.5]", "[[1], [\"s\"]]",
+            "(1, \"s\")", "(1, 2, 3)", "(2.5, 1)", "mut int|string 1", "mut float|bool true", "(x: int) -> int { return x; }", "(x: string) -> int { return 1; }",
+        ];
+        let more = crate::genr::matrix::Operand { ty: "any", values: &MORE };
+        for o in crate::genr::matrix::CATALOGUE.iter().chain([&more]) {
+            for text in o.values {
+                if out.iter().any(|(t, ..)| t == text) {
+                    continue;
+                }
+                if let run::Outcome::Value(v) = crate::exec::run_program(text, false).outcome {
+                    let t = Ty::from_real(&v.as_type());
+                    out.push((text, v, t));
+                }
+            }
+        }
+        out
+    })
+}
+
+/// the language's own membership test (if-set, type arm of match) of a value against a type T answers
+/// what the relation answers for the value's type, whatever the declared type S of the tested
+/// expression is and whatever the same test answered for the values before it
+fn check_membership(case: &Json, stats: &mut Stats) -> Verdict {
+    let (ts, tt) = (case["s"].as_str().unwrap_or("any"), case["t"].as_str().unwrap_or("any"));
+    let form = case["form"].as_u64().unwrap_or(0);
+    let texts: Vec<&str> = case["values"].as_array().map(|a| a.iter().filter_map(|v| v.as_str()).collect()).unwrap_or_default();
+    let Some(t) = Ty::parse(tt) else {
+        return Verdict::Discard("tested type not read by the harness");
+    };
+    let mut expected = vec![];
+    for text in &texts {
+        let Some((_, v, _)) = catalogue_values().iter().find(|(x, ..)| x == text) else {
+            return Verdict::Discard("value text outside the catalogue");
+        };
+        expected.push(json!(if crate::ty::not_inhabits(v, &t, 0).is_none() { 1 } else { 0 }));
+    }
+    let body = match form {
+        0 => format!("if v: {tt} = x {{ return 1; }} return 0;"),
+        1 => format!("return match x {{ v: {tt} => 1, => 0, }};"),
+        2 => format!("r := mut 0; while v: {tt} = x {{ r = 1; break; }}; return *r;"),
+        _ => format!("if v: {tt} = x {{ return 1; }} else {{ return 0; }}"),
+    };
+    let calls: Vec<String> = texts.iter().map(|v| format!("f({v})")).collect();
+    let text = format!("f := (x: {ts}) -> int {{ {body} }}; [{}]", calls.join(", "));
+    stats.eval();
+    let o = crate::exec::run_program(&text, false).outcome;
+    match &o {
+        run::Outcome::Rejected(_) => return Verdict::Discard("membership program rejected by the checker"),
+        run::Outcome::Aborted(_) => return Verdict::Inconclusive("budget"),
+        _ => {}
+    }
+    stats.label("membership programs executed");
+    stats.nontrivial(&text);
+    let want = Json::Array(expected);
+    let got = match &o {
+        run::Outcome::Value(v) => crate::lit::from_var(v),
+        _ => None,
+    };
+    if got.as_ref() != Some(&want) {
+        return fail(
+            format!("C10:membership:form{form}"),
+            format!("`{text}`: expected {} (1 where the value belongs to {tt}), got {}", crate::lit::show(&want), o.short()),
+        );
+    }
+    stats.sample(6, || json!({"program": text, "answers": want}));
+    Verdict::Pass
+}
+
+fn membership_cases() -> Vec<Json> {
+    use crate::genr::matrix::CATALOGUE;
+    let extra = ["struct{}", "struct{a: int}", "struct{b: int}", "struct{a: float}", "struct{a: int, b: int}", "()->!", "()->int", "()->float", "(int)->int", "[any]", "[!]", "(any, any)", "(int, int)", "(int, int, int)", "mut any", "!"];
+    let tested: Vec<&str> = CATALOGUE.iter().map(|o| o.ty).chain(extra).collect();
+    let mut cases = vec![];
+    let declared: Vec<&str> = CATALOGUE.iter().map(|o| o.ty).chain(["struct{}", "struct{a: int}", "()->any", "[any]", "(any, any)"]).collect();
+    fn shape(t: &Ty) -> u8 {
+        match t {
+            Ty::Struct(_) => 1,
+            Ty::Arr(_) => 2,
+            Ty::Tup(_) => 3,
+            Ty::Fun(..) => 4,
+            Ty::Mut(_) => 5,
+            _ => 0,
+        }
+    }
+    for (k, s) in declared.iter().enumerate() {
+        let Some(hs) = Ty::parse(s) else { continue };
+        // values the declared type admits
+        let admitted: Vec<&(&'static str, simplesl::variable::Variable, Ty)> = catalogue_values().iter().filter(|(_, _, vt)| crate::ty::sub(vt, &hs)).collect();
+        if admitted.is_empty() {
+            continue;
+        }
+        for (j, t) in tested.iter().enumerate() {
+            let Some(ht) = Ty::parse(t) else { continue };
+            let shapes: Vec<u8> = ht.members().iter().map(|m| shape(m)).collect();
+            // up to three members of T and up to five other values, those of T's shape first (distinct types)
+            let mut inside: Vec<&str> = vec![];
+            let mut outside: Vec<(&str, &Ty)> = vec![];
+            for near in [true, false] {
+                for (text, v, vt) in admitted.iter().map(|x| (x.0, &x.1, &x.2)) {
+                    if shapes.contains(&shape(vt)) != near {
+                        continue;
+                    }
+                    if crate::ty::not_inhabits(v, &ht, 0).is_none() {
+                        if inside.len() < 3 && !inside.contains(&text) {
+                            inside.push(text);
+                        }
+                    } else if outside.len() < 5 && !outside.iter().any(|(_, t)| *t == vt) {
+                        outside.push((text, vt));
+                    }
+                }
+            }
+            let mut values: Vec<&str> = vec![];
+            let mut outs = outside.iter().map(|(t, _)| *t);
+            for m in &inside {
+                values.push(m);
+                values.extend(outs.by_ref().take(2));
+            }
+            values.extend(outs);
+            if values.is_empty() {
+                continue;
+            }
+            let mut turned = values.clone();
+            turned.rotate_left(values.len() / 2);
+            cases.push(json!({"kind": "membership", "s": s, "t": t, "values": values, "form": (k + j) % 4}));
+            cases.push(json!({"kind": "membership", "s": s, "t": t, "values": turned, "form": (k + j + 1) % 2}));
+        }
+    }
+    cases
+}
+
 pub fn run(session: &Session) -> i32 {
     crate::engine::run_regressions(session, &C10);
     // a small hand-picked exhaustive core: all ordered triples over a basis of types
@@ -223,6 +363,9 @@ pub fn run(session: &Session) -> i32 {
         }
     }
     session.set_extra("basis_triples", json!(cases.len()));
+    let membership = membership_cases();
+    session.set_extra("membership_cases", json!(membership.len()));
+    cases.extend(membership);
     if !session.stopped() {
         session.run_enum(&C10, cases);
     }
